@@ -93,10 +93,28 @@ inductive Scan (α : Type) where
   | ok (v : α) (rest : List Char)
   deriving Repr
 
+/-- stand-in for an infinite value (larger than every `double`): value lists may contain `inf` -/
+def infVal : Rat := ((2 ^ 2000 : Nat) : Rat)
+
+/-- `inf` / `infinity` (any case) at the start: the text behind it -/
+def infWord (s : List Char) : Option (List Char) :=
+  if (s.take 8).map lower = "infinity".toList then some (s.drop 8)
+  else if (s.take 3).map lower = "inf".toList then some (s.drop 3)
+  else none
+
+/-- `strtod` on an infinity literal: optional white space and sign in front -/
+def infScan (s : List Char) : Option (Rat × List Char) :=
+  match infWord (numStart s) with
+  | some rest => some (if (dropSpace s).head? = some '-' then -infVal else infVal, rest)
+  | none => none
+
 /-- `mpt_cdouble(&val, src, 0)` -/
 def cdouble (s : List Char) : Scan Rat :=
   if s.isEmpty then .zero
-  else match scanDouble s with
+  else match infScan s with
+  | some (v, rest) => .ok v rest
+  | none =>
+  match scanDouble s with
     | some (v, rest) => .ok v rest
     | none => if s.all isSpace then .zero else .err .BadType
 
@@ -348,7 +366,7 @@ def facCount (s : List Char) : Option (Nat × List Char) :=
   match cuint32 s with
   | .err _ => none
   | .zero => some (0, s)
-  | .ok v rest => some (v, rest)
+  | .ok v rest => if v = 4294967295 then none else some (v, rest)   -- count + 1 must fit 32 bits (fix in /repo)
 
 /-- base value group -/
 def facBase (s1 : List Char) : Option (Rat × List Char) :=
